@@ -151,7 +151,7 @@ def main(tier, seed):
     ck.assumptions += ['the cycle is the project\'s own (GIRParser().parse + GIRWriter, as scannermain.passthrough_gir / --reparse-validate do it)',
                        'freshly scanned namespaces come from SourceSymbol trees (stub lexer) through the generators of C01, C12, C15, C16 and a '
                        'structure-member generator; the shipped tests/scanner/*-expected.gir files are cycled as they are']
-    ck.prove(['gen_c07.py'], models=['Model/C07.vo'])
+    ck.prove(['gen_c07.py', 'gen_c02.py'], models=['Model/C07.vo', 'Model/C07T.vo'])
     sys.path.insert(0, REPO)
     import scanner as S
     import xml.etree.ElementTree as ET
@@ -345,6 +345,8 @@ def main(tier, seed):
                                  dict(document=what), detail=first_diff(w1, w2))
     finally:
         shutil.rmtree(tmp, ignore_errors=True)
+    import c07t
+    c07t.type_codec(ck, tier, seed)
     return ck.finish(rule='GIR documents written by the real scanner for the generators of annotated callables, runtime-dump worlds, '
                           'structure/virtual-method worlds, declaration worlds, a structure-member generator (anonymous unions and '
                           'structures, function-pointer members, arrays whose length is another member) and an escaping generator '
